@@ -19,7 +19,7 @@ ID 0 gives `B`); for histories that never register a paired name alone (`PairedO
 void and the plain two-map reference `Spec` applies literally (`set_refines`).
 -/
 namespace DyntplV.C04
-open DyntplV
+open DyntplV DyntplV.Reg
 
 /-! ## (a) lookups see the latest registration -/
 
